@@ -8,13 +8,14 @@ THOROUGH_CAP_S = 1200
 
 
 class Ob:
-    __slots__ = ('name', 'smt2', 'expect', 'group', 'result', 'seconds', 'model', 'meta', 'text', 'cross', 'nontrivial', 'handled')
+    __slots__ = ('name', 'smt2', 'expect', 'group', 'result', 'seconds', 'model', 'meta', 'text', 'cross', 'nontrivial', 'handled', 'cap')
 
     def __init__(self, name, smt2, expect, group, meta, text, nontrivial=True):
         self.name, self.smt2, self.expect, self.group, self.meta, self.text = name, smt2, expect, group, meta, text
         self.result, self.seconds, self.model, self.cross = None, None, None, None
         self.nontrivial = nontrivial
         self.handled = False
+        self.cap = None
 
 
 _MODEL_RE = re.compile(r'\(define-fun\s+(\S+)\s+\(\)\s+(\(_ BitVec \d+\)|Int|Bool)\s+([^\n]*?)\)\s*(?=\(define-fun|\)\s*$)', re.S)
@@ -111,11 +112,15 @@ class Check:
         self.mir_info = None
         self.solver_seconds = 0.0
         self.extra = {}
+        self.formulas = {}          # name -> z3 formula (in-process only; for concrete confirmation of sat answers)
+        self.axioms = []            # background facts conjoined to every query (e.g. isz(0), not isz(1))
 
     # ------------------------------------------------------------ recording
-    def must_unsat(self, name, formula, group='', meta=None, text=None):
+    def must_unsat(self, name, formula, group='', meta=None, text=None, cap=None):
         """formula describes a *violation*; the obligation holds iff it is unsatisfiable"""
         self._add(name, formula, 'unsat', group, meta, text)
+        if cap:
+            self.obs[-1].cap = cap
 
     def must_sat(self, name, formula, group='vacuity', meta=None, text=None):
         """reachability / non-vacuity witness: must be satisfiable"""
@@ -124,7 +129,10 @@ class Check:
     def _add(self, name, formula, expect, group, meta, text):
         if isinstance(formula, bool):
             formula = z3.BoolVal(formula)
+        self.formulas[name] = formula
         s = z3.Solver()
+        for ax in self.axioms:
+            s.add(ax)
         s.add(formula)
         smt2 = s.to_smt2().replace('(check-sat)', '')
         simp = z3.simplify(formula)
@@ -164,15 +172,27 @@ class Check:
         if not pending:
             return
         t0 = time.time()
-        args = [(o.smt2, self.cap, True) for o in pending]
-        if len(pending) == 1 or jobs == 1:
-            res = [_solve(a) for a in args]
+        pending.sort(key=lambda o: -(o.cap or 0))      # long-running queries first
+        args = [(o.smt2, max(self.cap, o.cap or 0), True) for o in pending]
+        # identical SMT-LIB texts (e.g. the G1 and G2 instantiations of one macro body) are solved once
+        uniq = {}
+        for a in args:
+            uniq.setdefault(a[0], a)
+        ulist = list(uniq.values())
+        if len(ulist) == 1 or jobs == 1:
+            ures = [_solve(a) for a in ulist]
         else:
-            with ThreadPool(min(jobs, len(pending))) as pool:
-                res = pool.map(_solve, args, chunksize=1)
-        for o, (r, secs, model) in zip(pending, res):
+            with ThreadPool(min(jobs, len(ulist))) as pool:
+                ures = pool.map(_solve, ulist, chunksize=1)
+        rmap = {a[0]: r for a, r in zip(ulist, ures)}
+        self.extra['distinct_smt_texts_solved'] = self.extra.get('distinct_smt_texts_solved', 0) + len(ulist)
+        counted = set()
+        for o in pending:
+            r, secs, model = rmap[o.smt2]
             o.result, o.seconds, o.model = r, secs, model
-            self.solver_seconds += secs
+            if o.smt2 not in counted:
+                counted.add(o.smt2)
+                self.solver_seconds += secs
         if cross is None:
             cross = ['cvc5', 'z3-old'] if self.tier == 'thorough' else []
         for solver in cross:
